@@ -41,10 +41,18 @@ type StoreOpts struct {
 // ErrInjected is the sentinel wrapped by every injected storage error.
 var ErrInjected = errors.New("monstore: injected storage failure")
 
-type injectedErr struct{ token string }
+type injectedErr struct {
+	token string
+	also  error // a second error the failure wraps (e.g. context.DeadlineExceeded of a store-side timeout)
+}
 
 func (e *injectedErr) Error() string { return "injected storage failure " + e.token }
-func (e *injectedErr) Unwrap() error { return ErrInjected }
+func (e *injectedErr) Unwrap() []error {
+	if e.also != nil {
+		return []error{ErrInjected, e.also}
+	}
+	return []error{ErrInjected}
+}
 
 // SelectRec is one recorded Select call.
 type SelectRec struct {
@@ -249,6 +257,9 @@ func (st *Store) hit(ctx context.Context, call, selKey string, series int, local
 	switch f.Kind {
 	case "err":
 		return actErr, &injectedErr{token: tok}
+	case "err-deadline":
+		// the storage's own failure happens to be a deadline (a store-side timeout); the query's context is alive
+		return actErr, &injectedErr{token: tok, also: context.DeadlineExceeded}
 	case "panic-runtime":
 		var arr []int
 		idx := len(tok) // always out of range
